@@ -76,7 +76,8 @@ def r19b(P, R):
     ok = False
     for t in tups:
         ms = [e.get("method") for e in t["es"]]
-        same = all(e.get("k") == "MethodCall" and e["recv"].get("k") == "Path" and e["recv"].get("name") == "source" for e in t["es"])
+        src_local = reg.params[2].get("local") if len(reg.params) > 2 else None
+        same = all(e.get("k") == "MethodCall" and e["recv"].get("k") == "Path" and e["recv"].get("local") == src_local for e in t["es"])
         if ms == ["as_mut_ptr", "len", "capacity"] and same:
             ok = True
     R.check("R19-b", "triple-shape", ok, "(ptr, len, capacity) taken from the same String, in from_raw_parts order",
@@ -97,21 +98,26 @@ def r19b(P, R):
     R.check("R19-b", "exact-capacity:source-construction", ok, "ABI strings are built as String::from_utf8(<slice>.to_vec()) (capacity == len)",
             "read_str_ptr no longer builds its result with an exact-capacity allocation; register_file would free with a stale capacity/pointer", loc=rsp.loc())
     # no growing operation on the source between read_str_ptr and register_file (moves only)
-    chain = [(P.fn(L + "initiate_task"), "input_source"), (P.fn(L + "load_file"), "input_source"),
-             (P.fn(L + "loader::initiate_task"), "input_source"), (P.fn(L + "loader::load_file"), "input_source"), (reg, "source")]
-    for f, var in chain:
+    chain = [P.fn(L + "initiate_task"), P.fn(L + "load_file"), P.fn(L + "loader::initiate_task"), P.fn(L + "loader::load_file"), reg]
+    for f in chain:
         pvf = Prov(f)
+        string_params = {p_.get("local") for p_, t_ in zip(f.params, f.sig_inputs) if t_ == "alloc::string::String"}
         grows = []
+
+        def is_source(base):
+            if base.get("k") != "Path" or "local" not in base:
+                return False
+            return base["local"] in string_params or has_call(pvf.atoms(base), "read_str_ptr")
         for c in f.walk():
             if c.get("k") == "MethodCall" and c["method"] in GROW and peel_ty(c.get("recv_ty", "")) == "alloc::string::String":
                 base = c["recv"]
                 while base.get("k") in ("AddrOf", "Unary", "Field"):
                     base = base["e"]
-                if base.get("k") == "Path" and base.get("name") == var:
+                if is_source(base):
                     grows.append(c["method"])
-            if c.get("k") == "AssignOp" and c["l"].get("k") == "Path" and c["l"].get("name") == var:
+            if c.get("k") == "AssignOp" and is_source(c["l"]):
                 grows.append("+=")
-        R.check("R19-b", "exact-capacity:no-growth@" + short(f.path), not grows, "`%s` is only moved" % var,
+        R.check("R19-b", "exact-capacity:no-growth@" + short(f.path), not grows, "the source String is only moved",
                 "%s applies %s to the source String before it is registered: capacity may exceed len, so into_boxed_str() reallocates "
                 "and the recorded (ptr, len, capacity) is stale when the task is dropped" % (f.path, grows), loc=f.loc())
     # ABI wrappers obtain the source from read_str_ptr
@@ -160,7 +166,8 @@ def r19d(P, R):
         R.check("R19-d", "not-found:" + name, bool(conv) and tn, "None => Err(TaskNotFound)",
                 "%s does not map a missing task to Err(TaskNotFound) (unwrap/expect on an unknown id would trap)" % f.path, loc=f.loc())
         # other uses of `tasks`: none
-        uses = [c["method"] for c in f.walk() if c.get("k") == "MethodCall" and c["recv"].get("k") == "Path" and c["recv"].get("name") == "tasks"]
+        tasks_local = f.params[0].get("local") if f.params else None
+        uses = [c["method"] for c in f.walk() if c.get("k") == "MethodCall" and c["recv"].get("k") == "Path" and c["recv"].get("local") == tasks_local]
         R.check("R19-d", "isolation:" + name, set(uses) <= {"get_task", "get_task_mut"}, "only the addressed task is touched",
                 "%s also uses the task table through %s" % (f.path, uses), loc=f.loc())
     # the accessors are plain map lookups keyed by the id
